@@ -3,4 +3,5 @@
 set -e
 cd /verif
 ./build.sh
+./build19.sh
 echo "setup ok"
